@@ -14,14 +14,14 @@ CONSTANTS
   FK = {"ok"}
   SF = {"S1"}
   RCBS = {"B", "bad"}
-  RCAS = {"unset", "badonly"}
+  RCAS = {"unset", "A", "badonly"}
   RCBD = {"B", "bad"}
-  RPBL = {"unset"}
+  RPBL = {"unset", "bad"}
   RGEO = {"unset"}
   RPUB = {"unset"}
   RFK = {"ok", "syntax", "wrongtype", "unreadable"}
-  RSF = {"S2", "malformed"}
-  WithShipped = FALSE
+  RSF = {"S2", "malformed", "missing"}
+  WithShipped = TRUE
   Defects = {}
   Depth = 3
   GoodWeight = 6
